@@ -151,8 +151,8 @@ def c01(ctx, api):
                    'every recorded outcome checked by TLC against Admissible(expr, doc)', tv)
     st, summ = api['run_tlc_to_harness'](ctx, 'tsweep', 'GenTSweep', cfg(constants={'Emit': 'TRUE', 'Prop': '"C01"', 'To': 9000 if thorough else 1100}),
                                          timeout=1500, harness_args=['-timeout', '600s'])
-    acc.add('GenTSweep: 69 template families (document, expression and expected value with REP / IDX / NUM holes) instantiated for every n = 0..%d: '
-            'a 2/3/4-byte character after n letters under 17 string operations, n distinct variables / fields / arguments / hash keys, '
+    acc.add('GenTSweep: 120 template families (document, expression and expected value with REP / IDX / NUM holes) instantiated for every n = 0..%d: '
+            'a 2/3/4-byte character after n letters under 17 string operations, n distinct variables / fields / arguments / hash keys, every array / object / string function on inputs of size n, '
             'arrays of n elements; checked against the full specification for 4 values of n (TemplateLemma)' % (9000 if thorough else 1100), st, summ)
     st, summ = api['run_tlc_to_harness'](ctx, 'names', 'GenNames', cfg(constants={'Emit': 'TRUE', 'Prop': '"C01"'}), timeout=1500)
     acc.add('GenNames: 31 member names that look like syntax ("x.y", "x[0]", "*", "a|b", "", "0", "let" ...) in 17 positions, each paired with its '
@@ -237,8 +237,8 @@ def c12(ctx, api):
     acc.add('GenAlign: slices (and other position-sensitive operations) on strings with one 2/3/4-byte character after k = 0..%d ASCII letters' % (34 if thorough else 26), st, summ)
     st, summ = api['run_tlc_to_harness'](ctx, 'tsweep', 'GenTSweep', cfg(constants={'Emit': 'TRUE', 'Prop': '"C12"', 'To': 9000 if thorough else 1100}),
                                          timeout=1500, harness_args=['-timeout', '600s'])
-    acc.add('GenTSweep: 69 template families (document, expression and expected value with REP / IDX / NUM holes) instantiated for every n = 0..%d: '
-            'a 2/3/4-byte character after n letters under 17 string operations, n distinct variables / fields / arguments / hash keys, '
+    acc.add('GenTSweep: 120 template families (document, expression and expected value with REP / IDX / NUM holes) instantiated for every n = 0..%d: '
+            'a 2/3/4-byte character after n letters under 17 string operations, n distinct variables / fields / arguments / hash keys, every array / object / string function on inputs of size n, '
             'arrays of n elements; checked against the full specification for 4 values of n (TemplateLemma)' % (9000 if thorough else 1100), st, summ)
     return acc.result(RULE_PINNED, extra={'bounds': {'max_length': maxn}})
 
@@ -285,8 +285,8 @@ def c19(ctx, api):
     acc.add('let nesting 64 .. 8192 and 100,000 levels deep: shadowing ends with the inner let, chains of re-bindings, no leak to a sibling', st, summ)
     st, summ = api['run_tlc_to_harness'](ctx, 'tsweep', 'GenTSweep', cfg(constants={'Emit': 'TRUE', 'Prop': '"C19"', 'To': 9000 if thorough else 1100}),
                                          timeout=1500, harness_args=['-timeout', '600s'])
-    acc.add('GenTSweep: 69 template families (document, expression and expected value with REP / IDX / NUM holes) instantiated for every n = 0..%d: '
-            'a 2/3/4-byte character after n letters under 17 string operations, n distinct variables / fields / arguments / hash keys, '
+    acc.add('GenTSweep: 120 template families (document, expression and expected value with REP / IDX / NUM holes) instantiated for every n = 0..%d: '
+            'a 2/3/4-byte character after n letters under 17 string operations, n distinct variables / fields / arguments / hash keys, every array / object / string function on inputs of size n, '
             'arrays of n elements; checked against the full specification for 4 values of n (TemplateLemma)' % (9000 if thorough else 1100), st, summ)
     return acc.result(RULE_PINNED, extra={'model_checks': ['EnvEqualsSubstitution', 'Parses', 'WrappedNestLemma']})
 
@@ -339,8 +339,8 @@ def c11(ctx, api):
             'the expected array is a closed form checked against the specification sort for n = 10, 20, 30' % sizes, st, summ)
     st, summ = api['run_tlc_to_harness'](ctx, 'tsweep', 'GenTSweep', cfg(constants={'Emit': 'TRUE', 'Prop': '"C11"', 'To': 9000 if thorough else 1100}),
                                          timeout=1500, harness_args=['-timeout', '600s'])
-    acc.add('GenTSweep: 69 template families (document, expression and expected value with REP / IDX / NUM holes) instantiated for every n = 0..%d: '
-            'a 2/3/4-byte character after n letters under 17 string operations, n distinct variables / fields / arguments / hash keys, '
+    acc.add('GenTSweep: 120 template families (document, expression and expected value with REP / IDX / NUM holes) instantiated for every n = 0..%d: '
+            'a 2/3/4-byte character after n letters under 17 string operations, n distinct variables / fields / arguments / hash keys, every array / object / string function on inputs of size n, '
             'arrays of n elements; checked against the full specification for 4 values of n (TemplateLemma)' % (9000 if thorough else 1100), st, summ)
     tv = api['run_trace_validation'](ctx, 'unicode-traces', 3000 if thorough else 800, ctx['seed'], corpus=False, mode='unicode')
     acc.add_traces('trace validation: 30 string operations on random strings of <= 7 code points over 12 symbols (1-4 bytes, combining mark, '
